@@ -149,6 +149,9 @@ fn build_pipeline_upto(v: &Value, upto: Option<usize>) -> (Pipeline, Vec<Exec>) 
     for i in 0..n {
         let mut e = if fail_at == i as i64 {
             Exec::cmd(format!("/no/such/stage-program-{}", i))
+        } else if v["stubborn"].as_bool().unwrap_or(false) && i == 0 {
+            // a writer that ignores write errors: it ends only when SIGPIPE kills it
+            Exec::cmd(vchild()).arg("@stubborn").arg(v["tags"][i].as_str().unwrap())
         } else if v["noisy"].as_bool().unwrap_or(false) && i == 0 {
             // writes more to its standard error than a pipe holds before it looks at its input
             Exec::cmd(vchild()).arg("@script").arg("we300000").arg("R").arg("x0")
